@@ -43,10 +43,12 @@ Fixpoint spec_read (fuel : nat) (max : option N) (tl : tail_t) (d : bytes) : lis
 Definition expected (max : option N) (tl : tail_t) (d : bytes) : list bytes * final :=
   spec_read (S (length d)) max tl d.
 
-(* JSON variant: what is asked of the scanner oracle for the values an encoder wrote.
-   v ranges over the marshalled messages (never empty, never starting with white space). *)
+(* JSON variant: what is asked of the scanner ORACLE (encoding/json) for a value v an
+   encoder wrote: it is recognised as soon as its last byte is buffered, whatever
+   follows, and no proper prefix of it is taken for a value; and the newline the
+   encoder puts between values is skipped. *)
 Definition scanner_ok (scan : bytes -> scan_res) (v : bytes) : Prop :=
   (forall rest, scan (v ++ rest) = SComplete v rest) /\
-  (forall p, (length p < length v)%nat -> p = firstn (length p) v -> scan p = SNeedMore) /\
-  (forall rest, scan (10 :: rest) = scan rest) /\
-  non_space v = true.
+  (forall k, (k < length v)%nat -> scan (firstn k v) = SNeedMore).
+Definition scanner_skips_newline (scan : bytes -> scan_res) : Prop :=
+  scan [] = SNeedMore /\ forall rest, scan (10 :: rest) = scan rest.
